@@ -46,7 +46,7 @@ man = {
     ],
     "checks": checks,
     "not_applicable": na,
-    "notes": "Technique family: static analysis only; nothing in /repo is executed. Each check rebuilds its facts from /repo's working tree (content-hashed cache under /verif/.cache). Thorough = quick + configuration C for C14 + the checker's self-test on scratch copies (seeded changes of the property must fire, benign variants must stay silent; informational, recorded in evidence). Which seeded change is caught by which check: DESIGN.md section 10; benign-variant results and the triaged residual false alarms: section 11.1.",
+    "notes": "Technique family: static analysis only; nothing in /repo is executed. Each check rebuilds its facts from /repo's working tree (content-hashed cache under /verif/.cache). Thorough = quick + the specified glue groups again in configuration B (postcard alone, use-std + embedded-io 0.4) + configuration C (alloc without std) for C14 + the checker's self-test on scratch copies (seeded changes of the property must fire, benign variants must stay silent; informational, recorded in evidence). Which seeded change is caught by which check: DESIGN.md section 10; benign-variant results and the triaged residual false alarms: section 11.1.",
 }
 json.dump(man, open(os.path.join(HERE, "MANIFEST.json"), "w"), indent=1)
 print("claimed:", [c["property_id"] for c in checks], "n/a:", len(na))
